@@ -105,8 +105,12 @@ def compare(m, label, shapes, model, pcls, text, sname, settings, sem_factory=No
         if a[0] == 'exc':
             m.add('both_foreign_exception')
         return
+    import re as _re
     if shapes and kind == 'ast-differs':
         sig = 'ast-differs/name-over-valueless-or-binding-expression'
+    elif kind == 'accept-differs/model-ok-generated-fail' and isinstance(label, str) and _re.search(r'/\(\?x\)[^/]*\n', label):
+        # recorded finding: a verbose pattern that contains line breaks (they become \n escapes in generated source)
+        sig = 'accept-differs/model-ok-generated-fail/verbose-pattern-with-line-breaks'
     else:
         sig = f'{kind}/{sname}' + ('/semantics' if sem_factory else '')
     m.violation(sig, grammar=label, input=text, settings=sname, model=a, generated=b)
@@ -173,6 +177,7 @@ FEATURE_GRAMMARS = [
     # left/right joins: alone (model and generated agree) and under a name after another element (recorded finding)
     ('left-right-joins', "start: 'b'<{'a'}+ $ | 'a'>{'b'}+ 'a' $ ;\n"),
     ('left-right-joins-named', "start: x:'b' n:('b'<{'a'}+) $ | x:'a' n:('a'>{'b'}+) $ ;\n"),
+    ('verbose-pattern-multiline', "start: /(?x)\n  a\n  b/ 'a' $ | /(?x) b  # c\n/ $ ;\n"),
     ('names-in-nested-choice', "start: ('a' x:'a' | 'b' [x:'b'] y:'a') [z:'b' | z+:'a'] ;\n"),
 ]
 
